@@ -106,6 +106,18 @@ func runT(c *kit.Ctx, r *kit.Rand, idx int) {
 	panicked := false
 	for i := 0; i < nOps && !panicked; i++ {
 		n := kit.Pick(r, ncs)
+		if len(at.InflightClusterAllocationsByNodeClaim) > 0 && r.Chance(1, 2) {
+			var holding []string
+			for id, byIT := range at.InflightClusterAllocationsByNodeClaim {
+				if len(byIT) > 0 {
+					holding = append(holding, id.Value())
+				}
+			}
+			sort.Strings(holding)
+			if len(holding) > 0 {
+				n = kit.Pick(r, holding)
+			}
+		}
 		switch k := r.Intn(100); {
 		case k < 55: // commit; guarded like the allocator (only devices IsAllocated reports free) 5 times out of 6
 			guarded := !r.Chance(1, 6)
@@ -121,6 +133,9 @@ func runT(c *kit.Ctx, r *kit.Rand, idx int) {
 				for j, m := 0, r.Range(1, 3); j < m; j++ {
 					d, tmpl := kit.Pick(r, devs), r.Chance(1, 4)
 					key := fmt.Sprint(d, tmpl)
+					if !guarded && !tmpl && excl.Has(cpDev(d)) {
+						continue // a device allocated on the API server is never proposed (IsAllocated reports it)
+					}
 					if guarded && (seen[key] || isAlloc(d, tmpl, n, it)) {
 						c.Count("T:commit:guard-skipped-allocated-device")
 						continue
